@@ -9,4 +9,5 @@ CoreOps == {"InsertAxis", "Transpose", "Sum", "Multiply", "Add", "Take", "TakeDi
             "Ravel", "Unravel", "Power", "Sign", "LoopSum", "Absolute", "Negative", "Choose"}
 AllLeaves == 1..Len(LeafPool)
 CoreLeaves == {1, 2, 7, 8, 9, 10, 12, 13, 14, 15, 20, 22, 25}
+Fam(ops, leaves, maxnodes, maxops, maxleaves) == [ops |-> ops, leaves |-> leaves, maxnodes |-> maxnodes, maxops |-> maxops, maxleaves |-> maxleaves]
 ====
